@@ -266,3 +266,237 @@ Proof.
   exists (64 + 64 * 58 + 32), 4. split; [reflexivity|]. split; [unfold byte_ok; lia|].
   split; [vm_compute; discriminate | vm_compute; reflexivity].
 Qed.
+
+(* ---- (h) descriptor fields under the strict sequential packing check ---- *)
+Lemma check_keys_app a : forall off b,
+  check_keys off (a ++ b) = match check_keys off a with Some o => check_keys o b | None => None end.
+Proof.
+  induction a as [|d a IH]; intros off b; [reflexivity|].
+  cbn [app check_keys]. destruct (d_ks d =? off); [apply IH | reflexivity].
+Qed.
+
+Lemma check_arrays_app a : forall off b,
+  check_arrays off (a ++ b) = match check_arrays off a with Some o => check_arrays o b | None => None end.
+Proof.
+  induction a as [|d a IH]; intros off b; [reflexivity|].
+  cbn [app check_arrays]. destruct (d_as d =? w64 (align8 off)); [apply IH | reflexivity].
+Qed.
+
+Lemma layout_app pre : forall koff aoff post,
+  layout koff aoff (pre ++ post)
+  = layout koff aoff pre ++ layout (koff + keys_len pre) (layout_end aoff pre) post.
+Proof.
+  induction pre as [|it r IH]; intros koff aoff post.
+  - cbn. f_equal. lia.
+  - cbn [app layout keys_len layout_end]. f_equal. rewrite IH. f_equal. f_equal. lia.
+Qed.
+
+Lemma keys_len_app a b : keys_len (a ++ b) = keys_len a + keys_len b.
+Proof. induction a; cbn [app keys_len]; lia. Qed.
+
+Lemma layout_end_app a : forall aoff b, layout_end aoff (a ++ b) = layout_end (layout_end aoff a) b.
+Proof. induction a; intros; cbn [app layout_end]; auto. Qed.
+
+Lemma parse_descs_values fs ds : forall rest ds',
+  Forall rdesc_ok ds -> parse_descs fs (length ds) (descs_bytes ds ++ rest) = Ok ds' -> ds' = ds.
+Proof.
+  induction ds as [|d r IH]; intros rest ds' Hok H.
+  - cbn in H. congruence.
+  - inversion Hok as [|? ? Hd Hr]; subst.
+    cbn [length parse_descs] in H. rewrite descs_bytes_cons, <- app_assoc in H.
+    rewrite firstn_app_exact in H by (apply desc_length; reflexivity).
+    rewrite skipn_app_exact in H by (apply desc_length; reflexivity).
+    rewrite <- (app_nil_r (desc_bytes d (zeros 7) (zeros 24))), parse_desc_bytes in H by (auto; reflexivity).
+    repeat match type of H with context [if ?c then _ else _] => destruct c end; try discriminate.
+    destruct (parse_descs fs (length r) (descs_bytes r ++ rest)) eqn:E; try discriminate.
+    inversion H; subst. f_equal. eapply IH; eauto.
+Qed.
+
+Definition set_ks (d : rdesc) (v : Z) := mk_rdesc (d_type d) v (d_kl d) (d_as d) (d_al d).
+Definition set_as (d : rdesc) (v : Z) := mk_rdesc (d_type d) (d_ks d) (d_kl d) v (d_al d).
+
+Lemma desc_checks_ok fs d : desc_checks fs d -> rdesc_ok d.
+Proof. intros (H & _). exact H. Qed.
+
+(* the descriptor of item number |pre| with one field replaced; everything else as written *)
+Definition altered_descs (its pre : list item) (it : item) (post : list item) (f : rdesc -> rdesc) : list rdesc :=
+  layout (kw_k its) (kw_a its) pre
+  ++ f (mk_rdesc (itype it) (kw_k its + keys_len pre) (zlen (ikey it)) (align8 (layout_end (kw_a its) pre)) (ilen it))
+  :: layout (kw_k its + keys_len pre + zlen (ikey it)) (align8 (layout_end (kw_a its) pre) + isize it) post.
+
+Lemma altered_descs_id its pre it post : its = pre ++ it :: post ->
+  altered_descs its pre it post (fun d => d) = layout (kw_k its) (kw_a its) its.
+Proof. intros ->. unfold altered_descs. rewrite layout_app. reflexivity. Qed.
+
+Lemma descriptor_field_rejected its pre it post (f : rdesc -> rdesc) y :
+  items_ok its -> its = pre ++ it :: post ->
+  (forall d, rdesc_ok d -> rdesc_ok (f d)) ->
+  (check_keys (kw_k its) (altered_descs its pre it post f) = None \/
+   exists o, check_keys (kw_k its) (altered_descs its pre it post f) = Some o
+             /\ check_arrays o (altered_descs its pre it post f) = None) ->
+  exists e, kas_open true (kw_header its ++ descs_bytes (altered_descs its pre it post f) ++ y) = Err e.
+Proof.
+  intros Hok Hits Hf Hchk.
+  assert (Hne : its <> []) by (rewrite Hits; destruct pre; discriminate).
+  pose proof (kw_facts its Hok Hne) as (Hn & Hk & Ha & Hal & Hfs & Hlt & Hkeys).
+  destruct Hok as (Hall & _ & _).
+  assert (G3 : kw_k its + keys_len its <= kw_fs its) by (fold (kw_a its); lia).
+  assert (G4 : layout_end (kw_a its) its <= kw_fs its) by (fold (kw_fs its); lia).
+  destruct (layout_props its (kw_k its) (kw_a its) (kw_fs its) Hall ltac:(lia) ltac:(lia) G3 G4 Hlt) as (Hdc & _ & _).
+  assert (Hlen : length (altered_descs its pre it post f) = length its).
+  { unfold altered_descs. rewrite app_length. cbn [length]. rewrite !layout_length, Hits, app_length. reflexivity. }
+  assert (Hrok : Forall rdesc_ok (altered_descs its pre it post f)).
+  { rewrite <- (altered_descs_id its pre it post Hits) in Hdc. unfold altered_descs in *.
+    apply Forall_app in Hdc as [H1 H2]. inversion H2 as [|? ? H3 H4]; subst.
+    apply Forall_app. split; [eapply Forall_impl; [|exact H1]; apply desc_checks_ok|].
+    constructor; [apply Hf; eapply desc_checks_ok; eauto | eapply Forall_impl; [|exact H4]; apply desc_checks_ok]. }
+  unfold kas_open, kw_header.
+  rewrite read_header_ok by (try apply zeros_length; lia).
+  replace (kw_n its =? 0) with false by (symmetry; apply Z.eqb_neq; lia).
+  unfold read_descriptors. rewrite hs64, ds64.
+  replace (kw_fs its <? kw_n its * 64 + 64) with false by (symmetry; apply Z.ltb_ge; lia).
+  rewrite (take_exact (kw_n its * 64) (descs_bytes (altered_descs its pre it post f))).
+  2:{ unfold zlen. rewrite descs_bytes_length, Hlen. unfold kw_n, zlen. lia. }
+  replace (Z.to_nat (kw_n its)) with (length (altered_descs its pre it post f))
+    by (rewrite Hlen; unfold kw_n, zlen; rewrite Nat2Z.id; reflexivity).
+  destruct (parse_descs_shape (kw_fs its) (length (altered_descs its pre it post f))
+              (descs_bytes (altered_descs its pre it post f))) as [[ds' E]|[e E]]; rewrite E; [|eauto].
+  rewrite <- (app_nil_r (descs_bytes _)) in E. apply parse_descs_values in E; auto. subst ds'.
+  change (koff0 (kw_n its)) with (kw_k its).
+  destruct Hchk as [-> | (o & -> & ->)]; eauto.
+Qed.
+
+Lemma prefix_checks its pre it post : items_ok its -> its = pre ++ it :: post ->
+  check_keys (kw_k its) (layout (kw_k its) (kw_a its) pre) = Some (kw_k its + keys_len pre)
+  /\ check_arrays (kw_a its) (layout (kw_k its) (kw_a its) pre) = Some (layout_end (kw_a its) pre)
+  /\ 0 <= kw_k its + keys_len pre < two64 /\ 0 <= align8 (layout_end (kw_a its) pre) < two64
+  /\ kw_a its <= layout_end (kw_a its) pre.
+Proof.
+  intros Hok Hits.
+  assert (Hne : its <> []) by (rewrite Hits; destruct pre; discriminate).
+  pose proof (kw_facts its Hok Hne) as (Hn & Hk & Ha & Hal & Hfs & Hlt & Hkeys).
+  destruct Hok as (Hall & _ & _).
+  assert (Hpre : Forall item_ok pre) by (rewrite Hits in Hall; apply Forall_app in Hall; tauto).
+  assert (Hrest : Forall item_ok (it :: post)) by (rewrite Hits in Hall; apply Forall_app in Hall; tauto).
+  pose proof (keys_len_nonneg pre). pose proof (keys_len_nonneg (it :: post)).
+  assert (Hkl : keys_len its = keys_len pre + keys_len (it :: post)) by (rewrite Hits; apply keys_len_app).
+  pose proof (layout_end_ge pre (kw_a its) Hpre ltac:(lia)) as Hge1.
+  assert (Hle : layout_end (kw_a its) its = layout_end (layout_end (kw_a its) pre) (it :: post))
+    by (rewrite Hits at 2; apply layout_end_app).
+  pose proof (layout_end_ge (it :: post) (layout_end (kw_a its) pre) Hrest ltac:(lia)) as Hge2.
+  cbn [layout_end] in Hge2.
+  pose proof (align8_spec (layout_end (kw_a its) pre) ltac:(lia)) as [Hal2 _].
+  pose proof (Forall_inv Hrest) as Hit. pose proof (Forall_inv_tail Hrest) as Hpost.
+  pose proof (isize_nonneg it Hit).
+  pose proof (layout_end_ge post (align8 (layout_end (kw_a its) pre) + isize it) Hpost ltac:(lia)) as Hge3.
+  assert (Hfs2 : kw_fs its = layout_end (kw_a its) its) by reflexivity.
+  cbn [layout_end] in Hle.
+  assert (Q1 : kw_k its + keys_len pre <= kw_fs its) by (unfold kw_a in *; lia).
+  assert (Q2 : layout_end (kw_a its) pre <= kw_fs its) by lia.
+  destruct (layout_props pre (kw_k its) (kw_a its) (kw_fs its) Hpre ltac:(lia) ltac:(lia) Q1 Q2 Hlt) as (_ & Hck & Hca).
+  repeat split; auto; try lia.
+Qed.
+
+(* key_start: any other value is rejected *)
+Theorem key_start_rejected its pre it post v y :
+  items_ok its -> its = pre ++ it :: post -> 0 <= v < two64 -> v <> kw_k its + keys_len pre ->
+  exists e, kas_open true (kw_header its ++ descs_bytes (altered_descs its pre it post (fun d => set_ks d v)) ++ y) = Err e.
+Proof.
+  intros Hok Hits Hv Hne.
+  destruct (prefix_checks its pre it post Hok Hits) as (Hck & _ & _).
+  apply descriptor_field_rejected; auto.
+  - intros d (H1 & H2 & H3). unfold rdesc_ok, set_ks. cbn. tauto.
+  - left. unfold altered_descs. rewrite check_keys_app, Hck. cbn [check_keys set_ks d_ks].
+    replace (v =? kw_k its + keys_len pre) with false by (symmetry; apply Z.eqb_neq; lia). reflexivity.
+Qed.
+
+(* array_start: any other value is rejected *)
+Theorem array_start_rejected its pre it post v y :
+  items_ok its -> its = pre ++ it :: post -> 0 <= v < two64 -> v <> align8 (layout_end (kw_a its) pre) ->
+  exists e, kas_open true (kw_header its ++ descs_bytes (altered_descs its pre it post (fun d => set_as d v)) ++ y) = Err e.
+Proof.
+  intros Hok Hits Hv Hne.
+  destruct (prefix_checks its pre it post Hok Hits) as (Hck & Hca & Hk1 & Ha1 & Hge).
+  apply descriptor_field_rejected; auto.
+  - intros d (H1 & H2 & H3 & H4 & H5). unfold rdesc_ok, set_as. cbn. tauto.
+  - destruct (check_keys (kw_k its) (altered_descs its pre it post (fun d => set_as d v))) as [o|] eqn:E; [right | left; auto].
+    exists o. split; auto.
+    (* the keys pass, so the array check starts at the end of the keys = kw_a its *)
+    assert (o = kw_a its).
+    { assert (Hne' : its <> []) by (rewrite Hits; destruct pre; discriminate).
+      pose proof (kw_facts its Hok Hne') as (Hn & Hk & Ha & Hal & Hfs & Hlt & Hkeys).
+      destruct Hok as (Hall & _ & _).
+      assert (G3 : kw_k its + keys_len its <= kw_fs its) by (fold (kw_a its); lia).
+      assert (G4 : layout_end (kw_a its) its <= kw_fs its) by (fold (kw_fs its); lia).
+      destruct (layout_props its (kw_k its) (kw_a its) (kw_fs its) Hall ltac:(lia) ltac:(lia) G3 G4 Hlt) as (_ & Hck2 & _).
+      rewrite <- (altered_descs_id its pre it post Hits) in Hck2.
+      unfold altered_descs in *. rewrite check_keys_app in E, Hck2. rewrite Hck in E, Hck2.
+      cbn [check_keys set_as d_ks d_kl] in E, Hck2. rewrite E in Hck2. inversion Hck2. reflexivity. }
+    subst o. unfold altered_descs. rewrite check_arrays_app, Hca. cbn [check_arrays set_as d_as].
+    rewrite w64_small by lia.
+    replace (v =? align8 (layout_end (kw_a its) pre)) with false by (symmetry; apply Z.eqb_neq; lia). reflexivity.
+Qed.
+
+Example key_start_rejected_ex :
+  let its := sort_items [mk_item [98] 4 2 [1; 0; 0; 0; 255; 255; 255; 255]; mk_item [97; 47; 120] 1 3 [0; 255; 7]] in
+  exists pre it post, its = pre ++ it :: post /\ pre <> [] /\
+    forallb (fun v => negb (is_ok (kas_open true (kw_header its ++ descs_bytes (altered_descs its pre it post (fun d => set_ks d v))
+                                                   ++ kw_keys its ++ blocks (align8 (kw_a its)) its))))
+            [0; 1; 194; 196; 18446744073709551615] = true
+    /\ is_ok (kas_open true (kw_header its ++ descs_bytes (altered_descs its pre it post (fun d => set_ks d 195))
+                                                   ++ kw_keys its ++ blocks (align8 (kw_a its)) its)) = true.
+Proof.
+  cbv zeta. eexists [_], _, []. split; [vm_compute; reflexivity|]. split; [discriminate|]. vm_compute. split; reflexivity.
+Qed.
+
+(* ---- (g) num_items ---- *)
+Lemma layout_cons koff aoff it r :
+  layout koff aoff (it :: r) = mk_rdesc (itype it) koff (zlen (ikey it)) (align8 aoff) (ilen it)
+                                 :: layout (koff + zlen (ikey it)) (align8 aoff + isize it) r.
+Proof. reflexivity. Qed.
+
+Lemma parse_descs_head fs m buf ds : parse_descs fs (S m) buf = Ok ds ->
+  exists r, ds = parse_desc (firstn 64 buf) :: r.
+Proof.
+  cbn [parse_descs].
+  repeat match goal with |- context [if ?c then _ else _] => destruct c end; try discriminate.
+  destruct (parse_descs fs m (skipn 64 buf)); try discriminate. intros H. inversion H. eauto.
+Qed.
+
+Theorem num_items_rejected its n' minor r40 y :
+  items_ok its -> its <> [] -> length r40 = 40%nat -> 0 <= n' < 4294967296 -> n' <> kw_n its ->
+  exists e, kas_open true (header_bytes kas_file_version_major minor n' (kw_fs its) r40 ++ kw_descs its ++ y) = Err e.
+Proof.
+  intros Hok Hne Hr Hn' Hdiff.
+  pose proof (kw_facts its Hok Hne) as (Hn & Hk & Ha & Hal & Hfs & Hlt & Hkeys).
+  destruct Hok as (Hall & _ & _).
+  unfold kas_open. rewrite read_header_ok by (auto; lia).
+  destruct (n' =? 0) eqn:E0.
+  { rewrite hs64. replace (kw_fs its =? 64) with false by (symmetry; apply Z.eqb_neq; lia). eauto. }
+  apply Z.eqb_neq in E0.
+  unfold read_descriptors. rewrite hs64, ds64.
+  destruct (kw_fs its <? n' * 64 + 64); [eauto|].
+  destruct (take (n' * 64) (kw_descs its ++ y)) as [[buf rest]|] eqn:Et; [|eauto].
+  destruct (parse_descs_shape (kw_fs its) (Z.to_nat n') buf) as [[ds' E]|[e E]]; rewrite E; [|eauto].
+  assert (Hs : Z.to_nat n' = S (Z.to_nat (n' - 1))) by lia. rewrite Hs in E.
+  apply parse_descs_head in E as [r ->].
+  (* the first 64 bytes of the buffer are the first descriptor as written *)
+  destruct its as [|it its']; [congruence|].
+  assert (Hb : firstn 64 buf = desc_bytes (mk_rdesc (itype it) (kw_k (it :: its')) (zlen (ikey it)) (align8 (kw_a (it :: its'))) (ilen it)) (zeros 7) (zeros 24)).
+  { apply take_Some in Et as [Hsplit Hlb].
+    assert (Hl64 : (64 <= length buf)%nat) by (unfold zlen in Hlb; lia).
+    assert (Hf : firstn 64 (buf ++ rest) = firstn 64 buf).
+    { rewrite firstn_app. replace (64 - length buf)%nat with 0%nat by lia. rewrite firstn_O, app_nil_r. reflexivity. }
+    rewrite <- Hf, <- Hsplit.
+    unfold kw_descs. rewrite layout_cons, descs_bytes_cons, <- app_assoc.
+    apply firstn_app_exact. apply desc_length; reflexivity. }
+  rewrite Hb.
+  assert (G3 : kw_k (it :: its') + keys_len (it :: its') <= kw_fs (it :: its')) by (fold (kw_a (it :: its')); lia).
+  assert (G4 : layout_end (kw_a (it :: its')) (it :: its') <= kw_fs (it :: its')) by (fold (kw_fs (it :: its')); lia).
+  destruct (layout_props (it :: its') (kw_k (it :: its')) (kw_a (it :: its')) (kw_fs (it :: its')) Hall ltac:(lia) ltac:(lia) G3 G4 Hlt) as (Hdc & _ & _).
+  rewrite layout_cons in Hdc. inversion Hdc as [|? ? Hd0 _]; subst.
+  rewrite <- (app_nil_r (desc_bytes _ _ _)), parse_desc_bytes by (try reflexivity; eapply desc_checks_ok; eauto).
+  cbn [check_keys d_ks].
+  replace (kw_k (it :: its') =? koff0 n') with false; [eauto|].
+  symmetry. apply Z.eqb_neq. unfold koff0. rewrite hs64, ds64. lia.
+Qed.
